@@ -72,7 +72,8 @@ func tsLoad(c *chk.Ctx, root string) map[string]map[string]string {
 	return res
 }
 
-var subsets = map[string][]string{"h": {"go-http"}, "c": {"go-client"}, "b": {"go-http", "go-client"}}
+// (m: both Go plugins with the optional mock server requested - thorough tier)
+var subsets = map[string][]string{"h": {"go-http"}, "c": {"go-client"}, "b": {"go-http", "go-client"}, "m": {"go-http", "go-client"}}
 
 // checkC13 : everything the generators emit builds, vets and loads.
 func checkC13(c *chk.Ctx) {
@@ -109,7 +110,11 @@ func checkC13(c *chk.Ctx) {
 		if (i+int(c.Seed))%stride != 0 && !shaped {
 			continue
 		}
-		for _, sk := range []string{"h", "c", "b"} {
+		sks := []string{"h", "c", "b"}
+		if c.Thorough() {
+			sks = append(sks, "m")
+		}
+		for _, sk := range sks {
 			prefix := fmt.Sprintf("b%d%s", i, sk)
 			e, err := pipe.ParseExported(json.RawMessage(raw), prefix)
 			if err != nil {
@@ -132,7 +137,11 @@ func checkC13(c *chk.Ctx) {
 				plugins = append(append([]string{}, plugins...), "ts-client", "ts-server")
 			}
 			for _, p := range plugins {
-				r := set.Run(p, b.Request("", nil), plug.RunOpts{})
+				param := ""
+				if sk == "m" && p == "go-http" {
+					param = "generate_mock=true"
+				}
+				r := set.Run(p, b.Request(param, nil), plug.RunOpts{})
 				u.seg.Lines = append(u.seg.Lines, jsonLine(pipe.GenEvent(r, nil, "base", e.Schema, nil)))
 				evals++
 				if !r.OK() {
